@@ -5,7 +5,7 @@ import json, os, shutil, subprocess, sys
 pid, letter = sys.argv[1], sys.argv[2]
 checks = sys.argv[3:] or [pid]
 name = "%s-%s" % (pid, letter)
-src = "/tmp/mut2-%s/MUTATION/%s" % (pid, letter)
+src = "/tmp/mut%s-%s/MUTATION/%s" % (os.environ.get("ROUND", "2"), pid, letter)
 dst = "/verif/seeded/" + name
 if os.path.exists(src) and not os.path.exists(dst):
     shutil.copytree(src, dst)
@@ -15,7 +15,7 @@ try:
 except Exception:
     print(p.stdout[-3000:]); sys.exit(2)
 det = sorted(c for c, r in res["checks"].items() if r["exit"] != 0)
-meta = {"breaks": [pid], "source": "independent sub-agent (round 2) given only the property text and a scratch worktree",
+meta = {"breaks": [pid], "source": "independent sub-agent (round %s)" % os.environ.get("ROUND", "2") + " given only the property text and a scratch worktree",
         "needs": "see README.md (written by the sub-agent)",
         "confirmed": ("patch applies; full existing suite passes with the patch; demo fails with the patch and passes without it (tools/evalmut.py in a scratch worktree)"
                       if res.get("confirmed") else "NOT CONFIRMED: " + json.dumps(res["confirm"])[:600]),
